@@ -30,7 +30,7 @@ func init() {
 			"the generator keeps an optional field from being followed by a field with the same effective identifier; values random within the type's documented domain and biased to boundaries; some cases use Marshal/UnmarshalWithParams with top-level parameters; " +
 			"non-trivial = (type, value) whose Marshal succeeded so that the round trip was evaluated; distinct = distinct generated type descriptions (with tags)",
 		MinNontrivial:         7000,
-		MinNontrivialThorough: 25000,
+		MinNontrivialThorough: 100000,
 		Shards:                16,
 		GoMaxProcs:            2,
 		Assumptions: []string{
@@ -244,7 +244,7 @@ func c18rng(seed int64, idx int) *rand.Rand {
 func runC18(c *core.Ctx) {
 	defer strictMode(c)()
 	k := &c18{c: c}
-	ntypes := c.Pick(16000, 60000*8)
+	ntypes := c.Pick(16000, 320000)
 	nvals := c.Pick(8, 20)
 	for idx := c.Shard; idx < ntypes; idx += c.NShards {
 		only := -1
@@ -260,7 +260,9 @@ func runC18(c *core.Ctx) {
 	k.lim.flush(c)
 	c.Note("outside the domain because zcrypto and Go's encoding/asn1 behave the same way (not generated): 'explicit' with 'private' (Unmarshal expects a context-specific class); 'omitempty' without 'optional'; " +
 		"RawValue fields always carry the identifier their tag parameters announce and are never wrapped with 'explicit' (Marshal emits a RawValue verbatim); an untagged optional RawValue; a ...SET named slice with an additional 'set' parameter; " +
-		"implicitly tagged time.Time outside 1950..2049 without 'generalized'; implicitly tagged string without a string type outside the PrintableString alphabet; Enumerated beyond int32; Flag(false) on a mandatory field; int8/int16 fields")
+		"implicitly tagged time.Time outside 1950..2049 without 'generalized'; implicitly tagged string without a string type outside the PrintableString alphabet; Enumerated beyond int32; Flag(false) on a mandatory field; int8/int16 fields; " +
+		"an optional explicitly tagged field that is not followed by a mandatory never-empty field (when it is absent and the next element is empty and last, both libraries fail with 'explicit tag has no child'); " +
+		"an empty non-nil slice under omitempty (written as absent, read back as nil, which can turn an enclosing optional struct into its zero value and change the second encoding)")
 }
 
 func (k *c18) oneType(idx, nvals, only int) {
